@@ -126,12 +126,16 @@ CommonAncestorLevel(c, d) ==
     ELSE Max({-1} \cup {m \in 0..Min2(c[2], d[2]) : AncestorAt(c, m) = AncestorAt(d, m)})
 IsCanonical(Xs, cfg) ==
     LET X == Range(Xs)
+        deep == {c \in X : c[2] >= cfg.mn}
     IN  /\ IsValidSeq(Xs)
         /\ LevelsOK(X, cfg)
+        \* "if the covering has more than MaxCells, there must be no two cells with a common
+        \* ancestor at MinLevel or higher": the MinLevel ancestors are pairwise distinct
         /\ (Len(Xs) > cfg.mc =>
-               \A i \in 1..Len(Xs), j \in 1..Len(Xs) :
-                   i < j => CommonAncestorLevel(Xs[i], Xs[j]) < cfg.mn)
+               Cardinality({AncestorAt(c, cfg.mn) : c \in deep}) = Cardinality(deep))
+        \* "no sequence of cells that could be replaced by an ancestor"
         /\ ~\E c \in X : /\ c[2] - cfg.md >= cfg.mn
+                         /\ c[3] % P4(cfg.md) = 0
                          /\ DescAt(AncestorAt(c, c[2] - cfg.md), c[2]) \subseteq X
 
 \* ---- the postconditions are satisfiable (model-level sanity) ---------------------
